@@ -34,7 +34,7 @@ inductive Ev where
   deriving Repr, DecidableEq
 
 structure Cfg where
-  /-- xlsx: `e.local_name() == b"Relationship"`; xlsb: `e.name() == QName(b"Relationship")` -/
+  /-- `e.local_name() == b"Relationship"` (both readers now); `false`: `e.name() == QName(b"Relationship")` -/
   matchLocal : Bool
   /-- xlsb: the pair is inserted only when both `Id` and `Target` were seen; xlsx: inserted always, a missing
       attribute reads as empty -/
@@ -45,7 +45,8 @@ structure Cfg where
   stopAtEnd : Bool
   deriving Repr
 
-def xlsbCfg : Cfg := ⟨false, true, false, false⟩
+/-- (xlsb matched the qualified name until `fix: xlsb relationships under a namespace prefix were ignored`) -/
+def xlsbCfg : Cfg := ⟨true, true, false, false⟩
 def xlsxCfg : Cfg := ⟨true, false, true, true⟩
 
 /-- "Relationship", "Relationships", "Id", "Target" -/
